@@ -31,6 +31,10 @@ BIN_B = ["&&", "||", "^"]
 IV_LEAVES = [("v",), ("u",)]
 BV_LEAVES = [("vb",), ("ub",)]
 # constant leaves: literals next to side-effecting siblings (the constant folder may not drop or reorder the siblings)
+# identical leaves: every occurrence is the very same source text `cn()` / `cb()` (a counter that logs, increments and returns), so
+# that sibling sub-trees can be textually identical while each must still be evaluated
+ID_I = [("cn",)]
+ID_B = [("cb",)]
 IC_LEAVES = [("k2",), ("k0",)]
 BC_LEAVES = [("ct",), ("cf",)]
 LEAVES = {"I": I_LEAVES, "B": B_LEAVES, "O": O_LEAVES}
@@ -53,7 +57,7 @@ class leafset:
 
 def ty(n):
     k = n[0]
-    if k in ("bt", "bf", "vb", "ub", "ct", "cf", "&&", "||", "^", "!") or k in CMP:
+    if k in ("bt", "bf", "vb", "ub", "ct", "cf", "cb", "&&", "||", "^", "!") or k in CMP:
         return "B"
     if k in ("o", "on"):
         return "O"
@@ -216,6 +220,10 @@ class Builder:
             return ("call", V("bv"), [("int", self.nid()), ("bool", True)])
         if k == "bf":
             return ("call", V("bv"), [("int", self.nid()), ("bool", False)])
+        if k == "cn":
+            return ("call", V("cn"), [])
+        if k == "cb":
+            return ("call", V("cb"), [])
         if k == "k2":
             return ("int", 2)
         if k == "k0":
@@ -320,6 +328,12 @@ def prelude(used=None):
     kh = ("assign", "kh", ("new", "Hold", [V("f2")]), None, ())
     fl2 = ("assign", "fl2", ("list", [V("f2")]), None, ("const",))
     mk2 = ("assign", "mk2", ("fn", [], "fn(int, int) -> int", [("return", V("f2"))]), None, ())
+    cnt = ("assign", "cnt", lit(0), None, ())
+    cn = ("assign", "cn", ("fn", [], "int", [("assign", "cnt", ("bin", "+", V("cnt"), lit(1)), None, ("modify",)),
+                                             ("print", ("bin", "+", ("str", "c "), V("cnt"))), ("return", V("cnt"))]), None, ())
+    cb = ("assign", "cb", ("fn", [], "bool", [("assign", "cnt", ("bin", "+", V("cnt"), lit(1)), None, ("modify",)),
+                                              ("print", ("bin", "+", ("str", "c "), V("cnt"))),
+                                              ("return", ("bin", "==", ("bin", "%", V("cnt"), lit(2)), lit(1)))]), None, ())
     gx = ("assign", "gx", lit(1), None, ())
     u = ("assign", "u", ("fn", [("i", "int")], "int",
                          [("print", ("bin", "+", ("str", "u "), V("i"))),
@@ -333,7 +347,7 @@ def prelude(used=None):
              [("print", ("bin", "+", ("bin", "+", ("str", "m "), V("a")), ("bin", "+", ("str", " "), V("b")))),
               ("return", ("bin", "+", ("bin", "-", V("a"), V("b")), ("field", V("self"), "base")))])])
     ko = ("assign", "ko", ("new", "K", [lit(10)]), None, ())
-    need = {"v": [gx], "u": [gx, u], "vb": [gb], "ub": [gb, ub], "t": [t], "r": [t, r], "bt": [bv], "bf": [bv], "o": [ov], "on": [ov], "f2": [f2], "f3": [f3], "f4": [f4],
+    need = {"cn": [cnt, cn], "cb": [cnt, cb], "v": [gx], "u": [gx, u], "vb": [gb], "ub": [gb, ub], "t": [t], "r": [t, r], "bt": [bv], "bf": [bv], "o": [ov], "on": [ov], "f2": [f2], "f3": [f3], "f4": [f4],
             "sum3": [sum3], "idx": [pick], "+s": [slen], "msum": [msum], "m": [cls, ko],
             "iife": [], "fldm": [f2, holder, kh], "fldp": [f2, holder, kh], "elem": [f2, fl2], "res": [f2, mk2]}
     out = []
@@ -371,7 +385,7 @@ def body_of(tree, ctx, k=""):
     raise ValueError(ctx)
 
 
-ORDER = ["v", "u", "vb", "ub", "t", "r", "bt", "bf", "o", "on", "f2", "f3", "f4", "sum3", "idx", "+s", "msum", "m"] + CALLEE_FORMS
+ORDER = ["cn", "cb", "v", "u", "vb", "ub", "t", "r", "bt", "bf", "o", "on", "f2", "f3", "f4", "sum3", "idx", "+s", "msum", "m"] + CALLEE_FORMS
 
 
 def used_of(tree, ctx):
@@ -403,6 +417,8 @@ def build_group(items):
             ast.append(("assign", "gx", lit(1), None, ()))
         if u & {"vb", "ub"}:
             ast.append(("assign", "gb", ("bool", True), None, ()))
+        if u & {"cn", "cb"}:
+            ast.append(("assign", "cnt", lit(0), None, ()))
         ast += body_of(tree, ctx, str(k))
     ast.append(("print", ("str", "end")))
     return ast
@@ -460,6 +476,13 @@ class C15(Check):
         with leafset(I=[("t",), ("k2",)], B=[("bt",), ("bf",), ("ct",), ("cf",)]):
             km = {}
             k2_ = [n for t in ("I", "B") for n in trees_rule1(2, t, km) if tdepth(n) == 2 and any(x in ("k2", "ct", "cf") for x in _ops(n))]
+        with leafset(I=ID_I, B=ID_B):
+            i1 = depth1()
+            i2 = [n for t in ("I", "B") for n in trees_full(2, t) if tdepth(n) == 2]
+            i3 = [n for t in ("I", "B") for n in trees_rule1(3, t, {}) if tdepth(n) == 3]
+        ls.append(("Li-identical-leaves-depth<=2-full(+depth-3-rule-1)", [(n, c) for n in i1 for c in ("print", "if", "assign")] +
+                   [(n, c) for n in i2 for c in (("print",) if tier == "quick" else ("print", "if", "assign"))] +
+                   [(n, "print") for n in (i3 if tier == "thorough" else i3[::17])]))
         ls.append(("Lk0-depth1-constant-leaves-all-contexts", [(n, c) for n in k1 for c in ctxs]))
         ls.append(("Lk1-depth2-rule1-constant-leaves", [(n, c) for n in k2_ for c in (("print",) if tier == "quick" else ("print", "assign", "if"))]))
         ls.append(("Lv0-depth1-variable+mutator-leaves-all-contexts", [(n, c) for n in v1 for c in ctxs]))
@@ -564,8 +587,8 @@ class C15(Check):
         elif lines != it.out:
             i = next((j for j, (a, b) in enumerate(zip(lines, it.out)) if a != b), min(len(lines), len(it.out)))
             # distinguish: same multiset of log lines but different order / different evaluation count / different value
-            exp_log = [l for l in it.out if l.split(" ")[0] in ("t", "r", "b", "o", "u", "ub")]
-            got_log = [l for l in lines if l.split(" ")[0] in ("t", "r", "b", "o", "u", "ub")]
+            exp_log = [l for l in it.out if l.split(" ")[0] in ("t", "r", "b", "o", "u", "ub", "c")]
+            got_log = [l for l in lines if l.split(" ")[0] in ("t", "r", "b", "o", "u", "ub", "c")]
             if exp_log == got_log:
                 kind = "value"
             elif sorted(exp_log) == sorted(got_log):
@@ -583,7 +606,7 @@ class C15(Check):
 
     def finish(self, stats, tier):
         errs = []
-        for o in ALL_OPS + ["v", "u", "vb", "ub", "k2", "ct", "cf"]:
+        for o in ALL_OPS + ["v", "u", "vb", "ub", "k2", "ct", "cf", "cn", "cb"]:
             if not stats["tags"].get(f"op{o}"):
                 errs.append(f"vacuity: node kind {o} never executed")
         if not stats["tags"].get("ctx-print~minparen"):
